@@ -106,91 +106,131 @@ class _Canonical(ast.NodeTransformer):
         return node
 
 
-def _sole_name(stmt):
-    '''Name n when the statement is `return n`, `if n: ...` or
-    `for ... in n: ...` (the temporary is the whole header expression).'''
-    if isinstance(stmt, ast.Return) and isinstance(stmt.value, ast.Name):
-        return stmt.value.id
-    if isinstance(stmt, ast.If) and isinstance(stmt.test, ast.Name):
-        return stmt.test.id
-    if isinstance(stmt, ast.For) and isinstance(stmt.iter, ast.Name):
-        return stmt.iter.id
-    return None
+def _header_exprs(stmt):
+    '''The expressions a statement evaluates ONCE, before anything else it
+    does: the whole of a simple statement, the test of an `if`, the iterable
+    of a `for`.  (`while` re-evaluates its test; `with` is left alone.)'''
+    if isinstance(stmt, ast.Return):
+        return [('value', stmt.value)] if stmt.value is not None else []
+    if isinstance(stmt, ast.Expr):
+        return [('value', stmt.value)]
+    if isinstance(stmt, (ast.Assign, ast.AugAssign, ast.AnnAssign)):
+        return [('value', stmt.value)] if stmt.value is not None else []
+    if isinstance(stmt, ast.Raise):
+        return [('exc', stmt.exc)] if stmt.exc is not None else []
+    if isinstance(stmt, ast.Assert):
+        return [('test', stmt.test)]
+    if isinstance(stmt, ast.If):
+        return [('test', stmt.test)]
+    if isinstance(stmt, ast.For):
+        return [('iter', stmt.iter)]
+    return []
+
+
+def _single_use(stmt, name):
+    '''(field, Name node) when `name` is loaded exactly once in the header
+    of the statement, outside any lambda / comprehension (whose bodies are
+    evaluated later or several times); else None.'''
+    found = []
+    for fld, expr in _header_exprs(stmt):
+        deferred = set()
+        for node in ast.walk(expr):
+            if isinstance(node, (ast.Lambda, ast.ListComp, ast.SetComp,
+                                 ast.DictComp, ast.GeneratorExp)):
+                deferred |= {id(n) for n in ast.walk(node)}
+        for node in ast.walk(expr):
+            if isinstance(node, ast.Name) and node.id == name and \
+                    isinstance(node.ctx, ast.Load):
+                if id(node) in deferred:
+                    return None
+                found.append((fld, node))
+    return found[0] if len(found) == 1 else None
 
 
 def _inline_returned_temporaries(tree):
-    '''x = E ; return x  ->  return E   when x is a local name that is read
-    nowhere else in the function (part of the canonical normal form: a
-    result computed into a temporary right before it is returned).'''
+    '''x = E ; S[x]  ->  S[E]   when x is a local name stored once and
+    read once, S is the NEXT statement and reads x in its header (see
+    _header_exprs).  Part of the canonical normal form: a value computed
+    into a temporary right before its only use.  The same temporary name
+    may be used for several such pairs (`res = ..; return res` in every
+    branch).'''
     for func in [n for n in ast.walk(tree)
                  if isinstance(n, (ast.FunctionDef, ast.AsyncFunctionDef))]:
         loads = {}
         stores = {}
+        declared = set()
         for node in ast.walk(func):
             if isinstance(node, ast.Name):
                 if isinstance(node.ctx, ast.Load):
                     loads[node.id] = loads.get(node.id, 0) + 1
                 else:
                     stores[node.id] = stores.get(node.id, 0) + 1
+            elif isinstance(node, (ast.Global, ast.Nonlocal)):
+                declared |= set(node.names)
         params = {a.arg for a in func.args.args + func.args.kwonlyargs +
-                  func.args.posonlyargs}
-        # adjacent  x = E ; return x  pairs per name
+                  func.args.posonlyargs} | declared
         pairs = {}
+
+        def is_pair(stmt, nxt):
+            if isinstance(stmt, ast.Assign) and len(stmt.targets) == 1 and \
+                    isinstance(stmt.targets[0], ast.Name) and \
+                    nxt is not None and not any(
+                        isinstance(n, (ast.Yield, ast.YieldFrom, ast.Await,
+                                       ast.NamedExpr))
+                        for n in ast.walk(stmt.value)):
+                name = stmt.targets[0].id
+                if name not in params and _single_use(nxt, name):
+                    return name
+            return None
+
+        def blocks(stmt):
+            for fld in ('body', 'orelse', 'finalbody'):
+                sub = getattr(stmt, fld, None)
+                if isinstance(sub, list) and sub and isinstance(
+                        sub[0], ast.stmt) and not isinstance(
+                            stmt, (ast.FunctionDef, ast.ClassDef,
+                                   ast.AsyncFunctionDef)):
+                    yield stmt, fld, sub
+            for hdl in getattr(stmt, 'handlers', []) or []:
+                yield hdl, 'body', hdl.body
 
         def count(body):
             for idx, stmt in enumerate(body):
                 nxt = body[idx + 1] if idx + 1 < len(body) else None
-                if isinstance(stmt, ast.Assign) and len(stmt.targets) == 1 \
-                        and isinstance(stmt.targets[0], ast.Name) and \
-                        _sole_name(nxt) == stmt.targets[0].id:
-                    name = stmt.targets[0].id
+                name = is_pair(stmt, nxt)
+                if name is not None:
                     pairs[name] = pairs.get(name, 0) + 1
-                for fld in ('body', 'orelse', 'finalbody'):
-                    sub = getattr(stmt, fld, None)
-                    if isinstance(sub, list) and sub and isinstance(
-                            sub[0], ast.stmt) and not isinstance(
-                                stmt, (ast.FunctionDef, ast.ClassDef,
-                                       ast.AsyncFunctionDef)):
-                        count(sub)
-                for hdl in getattr(stmt, 'handlers', []) or []:
-                    count(hdl.body)
+                for _own, _fld, sub in blocks(stmt):
+                    count(sub)
         count(func.body)
+        ok = {n for n, k in pairs.items()
+              if loads.get(n, 0) == stores.get(n, 0) == k}
+        if not ok:
+            continue
 
         def rewrite(body):
-            out = []
+            body = list(body)
             idx = 0
             while idx < len(body):
                 stmt = body[idx]
                 nxt = body[idx + 1] if idx + 1 < len(body) else None
-                name = stmt.targets[0].id if isinstance(
-                    stmt, ast.Assign) and len(stmt.targets) == 1 and \
-                    isinstance(stmt.targets[0], ast.Name) else None
-                if name is not None and _sole_name(nxt) == name and \
-                        loads.get(name, 0) == stores.get(name, 0) == \
-                        pairs.get(name, -1) and name not in params:
+                name = is_pair(stmt, nxt)
+                if name in ok:
+                    fld, node = _single_use(nxt, name)
+                    value = stmt.value
+
+                    class Sub(ast.NodeTransformer):
+                        def visit_Name(self, cur):
+                            return value if cur is node else cur
+                    setattr(nxt, fld, Sub().visit(getattr(nxt, fld)))
                     if isinstance(nxt, ast.Return):
-                        out.append(ast.copy_location(
-                            ast.Return(value=stmt.value), stmt))
-                        idx += 2
-                        continue
-                    if isinstance(nxt, ast.If):
-                        nxt.test = stmt.value
-                    elif isinstance(nxt, ast.For):
-                        nxt.iter = stmt.value
-                    body = body[:idx] + body[idx + 1:]
+                        ast.copy_location(nxt, stmt)
+                    del body[idx]
                     continue
-                for fld in ('body', 'orelse', 'finalbody'):
-                    sub = getattr(stmt, fld, None)
-                    if isinstance(sub, list) and sub and isinstance(
-                            sub[0], ast.stmt) and not isinstance(
-                                stmt, (ast.FunctionDef, ast.ClassDef,
-                                       ast.AsyncFunctionDef)):
-                        setattr(stmt, fld, rewrite(sub))
-                for hdl in getattr(stmt, 'handlers', []) or []:
-                    hdl.body = rewrite(hdl.body)
-                out.append(stmt)
+                for own, fld, sub in blocks(stmt):
+                    setattr(own, fld, rewrite(sub))
                 idx += 1
-            return out
+            return body
         func.body = rewrite(func.body)
     return tree
 
